@@ -55,6 +55,7 @@ def main():
             e = results[sid]
             for chk, v in e.get("checks", {}).items():
                 f.write("| %s | %s | %s: exit %d in %ss | %s |\n" % (sid, e["property"], chk, v["exit"], v["wall_s"], "; ".join("`%s`" % k for k in v["violation_keys"][:4])))
-    missed = [s for s, e in results.items() if e.get("checks") and not e["checks"][e["property"]]["caught"]]
-    print("changes:", len(results), "not caught by their property's check:", missed)
+    missed = [s for s, e in results.items() if e.get("checks") and not any(v["caught"] for v in e["checks"].values())]
+    own = [s for s, e in results.items() if e.get("checks") and not e["checks"][e["property"]]["caught"] and s not in missed]
+    print("changes:", len(results), "caught by no check:", missed, "| caught only by another property's check:", own)
 main()
